@@ -440,7 +440,7 @@ inline int harness_main(int argc, char **argv, const Harness &h) {
         printf("REPLAY-ERROR cannot read %s\n", argv[i]);
         return 2;
       }
-      if (mode.empty()) mode = m;
+      if (!m.empty()) mode = m;  // the mode recorded with the case wins (it names the spec type)
       current_case().tokens.clear();  // no crash dump while replaying
       std::string msg = h.replay(mode, toks);
       if (msg.empty()) {
